@@ -49,6 +49,15 @@ def run_np_case(rec, k):
         if abs(float(tgt.values) - float(want)) > 1e-6 * max(1.0, abs(float(want))):
             return "mismatch", f"value: np.{name}(a, out=x) holds {tgt.values!r}, numpy gives {want!r}", {}
         return "match", None, {}
+    if rk == "none" and f == "power_ndv":
+        ex = np.array([1.0, 2.0])
+        try:
+            res = np.power(a, ex)
+        except Exception as e:
+            return ("match", None, {}) if o["raises"] else ("mismatch", f"np.power(a [{lu}], array([1., 2.])) raised {type(e).__name__}: {e}", {})
+        if o["raises"]:
+            return "mismatch", f"spec: np.power(a [{lu}], array([1., 2.])) raises (no single unit for the result), implementation returned unit {res.unit}", {}
+        return _compare(res, np.power(np.asarray(larr, dtype=float) * float(cgs(lu)), ex), o, [dt], 1e-12, f)
     if rk == "none":
         name, args, kw = FORMS.get(f, (f, (), {}))
         if f.startswith("power_"):
